@@ -469,6 +469,11 @@ func (w *Whisper) baseInterval(a *ArchiveInfo) (Timestamp, error) {
 	if _, err := t.TakeFrom(buf[:]); err != nil {
 		return 0, err
 	}
+	if int64(t)%int64(a.secondsPerPoint) != 0 {
+		// NOTE: all point offsets are calculated from the distance to the
+		// base interval in steps, so it must be a multiple of the step.
+		return 0, fmt.Errorf("corrupt archive: base interval %d is not a multiple of step %s", uint32(t), a.secondsPerPoint)
+	}
 	return t, nil
 }
 
